@@ -68,7 +68,9 @@ def run(rep, tier):
         rep.configs.append(b.cfg.name)
         rep.units.update(lr.units)
         rule_copy(rep, m, b.cfg.name)
-        rule_reinit(rep, m, b.cfg.name, api)
+        # "init defines the whole object" is judged with file-local helpers inlined (a shared worker with a mode flag)
+        lri = repo.lower(b, group="lib", level="O0", langs=("c",), scev=True, inline_internal=True)
+        rule_reinit(rep, ir.Module.load(lri.json), b.cfg.name, api)
         rule_inplace(rep, m, b.cfg.name, b, "C07.D3")
         rule_posn(rep, m, b.cfg.name)
     rule_chunking(rep, tier)
